@@ -3,7 +3,7 @@
 Copies a confirmed seeded change into /verif/seeded/<Cxx>-<mK>/ with meta.json."""
 import sys, json, os, shutil
 pid, m, val, caught = sys.argv[1:5]
-src = "/tmp/mut/%s.out/%s" % (pid, m)
+src = "%s/%s.out/%s" % (os.environ.get("MUTROOT", "/tmp/mut"), pid, m)
 dst = "/verif/seeded/%s-%s" % (pid, m)
 os.makedirs(dst, exist_ok=True)
 for f in os.listdir(src):
